@@ -285,6 +285,7 @@ func c16Run(t *testing.T, p *world.PKI, v checks.Variant, clientSide bool, pos i
 			}
 			// NOTE: a Read/Write issued while the handshake is running queues behind Conn.handshakeMutex (a
 			// real mutex): from here on only loose settling works until Close has released everything.
+			n.OnEvent = nil // what follows depends on the Go scheduler's order at a real mutex: not part of the state digest
 			rd := startRead(w, x)
 			var wr *world.Op
 			w.SettleLoose()
